@@ -1,4 +1,5 @@
 pub mod engine;
+pub mod fuzzing;
 pub mod models;
 pub mod probes;
 pub mod props;
